@@ -2,7 +2,7 @@
    range checkers, range-index maintenance, bloom token insertion and block pruning (C03 case files).
    Every check returns the indices of the cases where the model disagrees with the observation. *)
 From Coq Require Import QArith.
-From SigM Require Import Base Prune Layout.
+From SigM Require Import Base Prune Layout TextPlan.
 Open Scope Z_scope.
 
 Fixpoint idx_false (l : list bool) (i : nat) : list nat :=
@@ -127,3 +127,34 @@ Definition check_block_index (cs : list (list rcell * option numbers)) : list na
 Definition pqs_flag_ok (c : list (list bool) * bool) : bool :=
   Bool.eqb (seg_nonempty bool (fun b => b) (fst c)) (snd c).
 Definition check_pqs_flag (cs : list (list (list bool) * bool)) : list nat := idx_false (map pqs_flag_ok cs) 0.
+
+(* 11. the candidate columns recorded by the block-bloom check of a query on the wildcard column (TextPlan.v):
+   per block its columns (Some values = bloom over these values, None = range index), the keys, And/Or;
+   observed per block, for doCmiChecks (rotated) and DoCMICheckForUnrotated (open): None = block dropped,
+   Some cols = timeFilteredBlocks[blk] (compared as a set) *)
+Definition cols_seteq (a b : list bytes) : bool :=
+  forallb (fun c => mem_bytes c b) a && forallb (fun c => mem_bytes c a) b.
+Definition plan_eqb (m o : option (list bytes)) : bool :=
+  match m, o with Some a, Some b => cols_seteq a b | None, None => true | _, _ => false end.
+Fixpoint plans_eqb (a b : list (option (list bytes))) : bool :=
+  match a, b with [], [] => true | x :: a', y :: b' => plan_eqb x y && plans_eqb a' b' | _, _ => false end.
+Definition case_cmis (b : list (bytes * option (list bytes))) : list colidx :=
+  map (fun cv => (fst cv, match snd cv with Some vals => Some (exact_filter vals) | None => None end)) b.
+Definition allcol_cols_ok (c : list (list (bytes * option (list bytes))) * list (bytes * option bytes) * lop
+                              * list (option (list bytes)) * list (option (list bytes))) : bool :=
+  let '(bs, keys, o, obs_rot, obs_unrot) := c in
+  let segcols := flat_map (map fst) bs in
+  plans_eqb (map (fun b => allcol_rotated (case_cmis b) keys o) bs) obs_rot
+  && plans_eqb (map (fun b => allcol_unrotated segcols (case_cmis b) keys o) bs) obs_unrot.
+Definition check_allcol_cols (cs : list (list (list (bytes * option (list bytes))) * list (bytes * option bytes) * lop
+                                         * list (option (list bytes)) * list (option (list bytes)))) : list nat :=
+  idx_false (map allcol_cols_ok cs) 0.
+
+(* 12. end to end: an equality on the wildcard column with a string value on the real system over a layout whose
+   segments (open / rotated) and blocks are known; the model answer (plan of the bloom check per block, search in
+   the candidate columns) must be the observed id set; one case = one layout with all its (value, observed ids) *)
+Definition allcol_e2e_ok (c : list tseg * bool * list (bytes * list nat)) : bool :=
+  let '(L, ci, qs) := c in
+  forallb (fun q => list_eqb Nat.eqb (sort_nat (allcol_answer exact_filter ci (fst q, None) L)) (snd q)) qs.
+Definition check_allcol_e2e (cs : list (list tseg * bool * list (bytes * list nat))) : list nat :=
+  idx_false (map allcol_e2e_ok cs) 0.
